@@ -124,6 +124,31 @@ def norm_expected(e):
     return (f, line, tuple(pairs))
 
 
+def parse_iters(msg):
+    """the iteration each repetition level reports: 'REPT 2(3)' -> '2', 'IRP:1(2)' -> '1', 'WHILE 2/3' -> '2', macro calls -> None"""
+    m = re.match(r'^> > > (\S+?)\((\d+)\)(.*?)(?::\d+)?: (?:error|warning|fatal)', msg)
+    if not m:
+        return None
+    out = []
+    for mm in re.finditer(r'(REPT|WHILE) (\d+)[(/]\d+\)?|(IRP):([^()]*)\(\d+\)|([A-Za-z][A-Za-z0-9_]*)\(\d+\)', m.group(3)):
+        if mm.group(1):
+            out.append((mm.group(1), mm.group(2)))
+        elif mm.group(3):
+            out.append(('IRP', mm.group(4)))
+        else:
+            out.append((mm.group(5).upper(), None))
+    return (m.group(1), int(m.group(2)), tuple(out))
+
+
+def expected_iters(e):
+    inc, f, line, cons, mult = e
+    names = [cons[i] for i in range(0, len(cons), 2)]
+    opts = [(('1', '2') if n in ('REPT', 'WHILE', 'IRP') else (None,)) for n in names]
+    combos = list(itertools.product(*opts))
+    # repetitions OUTSIDE an include file are not part of a position inside that file: they only multiply the message
+    return [(f, line, tuple(zip(names, combo))) for combo in combos] * (mult // len(combos))
+
+
 def parse_native(msg):
     """'> > > main.asm(12) REPT 1(2):7: error...' -> (file, line, ((NAME, bodyline),...))"""
     m = re.match(r'^> > > (\S+?)\((\d+)\)(.*?)(?::\d+)?: (?:error|warning|fatal)', msg)
@@ -252,6 +277,13 @@ def evaluate(case):
         return core.R(False, 'native-position', 'native/%s/%s' % (sg, case.get('cont', 'none')), 'positions named but not planted %s; planted but not named %s on %s' % (extra, missing, d))
     if o.rc != 2:
         return core.R(False, 'rc', 'rc/' + sg, 'exit status %s with planted errors on %s' % (o.rc, d))
+    # which iteration of each repetition level a message names: every iteration exactly once
+    goti = sorted(parse_iters(m) for m in msgs)
+    wanti = sorted(x for e in exps for x in expected_iters(e))
+    if goti != wanti:
+        missing = [w for w in wanti if w not in goti][:2]
+        extra = [g for g in goti if g not in wanti][:2]
+        return core.R(False, 'native-iteration', 'native-iteration/%s' % sg, 'iterations named but not run %s; run but not named %s on %s' % (extra, missing, d))
     return core.R(True, 'positions-ok', states=['n:' + sg])
 
 
